@@ -378,7 +378,8 @@ pub fn hf_json(rng: &mut Rng, variant: usize) -> Vec<u8> {
         added,
         norm,
         pre,
-        if variant % 2 == 0 { r#"{"type":"ByteFallback"}"# } else { "null" },
+        // independent of the model's `byte_fallback` flag: either of the two turns `<0xNN>` decoding on
+        if rng.chance(1, 2) { r#"{"type":"ByteFallback"}"# } else { "null" },
         model
     )
     .into_bytes()
@@ -493,8 +494,9 @@ pub fn hf_zoo(rng: &mut Rng, variant: usize) -> Vec<u8> {
 
 pub fn tekken_json(rng: &mut Rng, variant: usize) -> Vec<u8> {
     let odd = |rng: &mut Rng| rng.chance(1, 6);
-    let nspecial = if odd(rng) { *rng.pick(&[0usize, 1, 13, 15, 4294967295]) } else { 14 };
-    let vs = if odd(rng) { *rng.pick(&[0usize, 1, 13, 14, 100, 4294967295, 4294967296]) } else { 14 + rng.range(1, 3) };
+    // the number of special tokens around the 14 named ones (fewer, none, more), with a vocabulary size that fits it
+    let nspecial = if rng.chance(1, 3) { *rng.pick(&[0usize, 1, 2, 13, 15, 20, 4294967295]) } else { 14 };
+    let vs = if odd(rng) { *rng.pick(&[0usize, 1, 13, 14, 100, 4294967295, 4294967296]) } else { nspecial.min(1000) + rng.range(1, 3) };
     let mut vocab = String::new();
     // ranks in file order, in another order, or with gaps: a token's id is its rank, not its position
     let ranks: [&str; 3] = *rng.pick(&[["0", "1", "2"], ["2", "0", "1"], ["1", "2", "0"], ["0", "2", "5"], ["5", "0", "2"]]);
